@@ -156,14 +156,21 @@ def runC11 (args : List String) : String :=
         | .ok m' =>
           let a' := evalMask n m'
           -- the index-level `getItem` (the one the theorems are about) must give the same map
-          let agree := match getItem c.b cur k with
+          let agree := (match getItem c.b cur k with
             | .ok m2 => evalMask n m2 == a'
-            | .error _ => false
+            | .error _ => false)
+            -- … and so must the set-semantics specification
+            && (match specSelect c.b (ids n cur) k with
+            | .ok T => T == ids n (maskOfArr a')
+            | .error _ => false)
           (a', acc.2 ++ [(if agree then "" else "LAYERS-DIFFER;") ++ observe11 c (maskOfArr a')])
         | .error e =>
-          let agree := match getItem c.b cur k with
+          let agree := (match getItem c.b cur k with
             | .ok _ => false
-            | .error f => e == f
+            | .error f => e == f)
+            && (match specSelect c.b (ids n cur) k with
+            | .ok _ => false
+            | .error f => e == f)
           (acc.1, acc.2 ++ [(if agree then "" else "LAYERS-DIFFER;") ++ "E=" ++ e.toString]))
         (a0, [observe11 c (maskOfArr a0)])
       pure (" | ".intercalate outs)
